@@ -33,6 +33,20 @@ InitSummary ==
    subject |-> Absent, title |-> StrV(TitleInstaller), uuid |-> Absent, word_count |-> Absent]
 
 Cols33 == [k \in 1..33 |-> IntCol(<<67, 48 + (k \div 10), 48 + (k % 10)>>, "i16", FALSE, k = 1)]
+\* stream names: packable (odd, even, at and beyond the 31-unit limit), unpackable ASCII and non-ASCII,
+\* characters inside the packing ranges, table marker, reserved characters, the special streams
+Packable(n) == [k \in 1..n |-> IF k % 3 = 0 THEN 48 + (k % 10) ELSE 97 + (k % 26)]
+N_Summary == <<5, 83, 117, 109, 109, 97, 114, 121, 73, 110, 102, 111, 114, 109, 97, 116, 105, 111, 110>>
+N_DocSummary == <<5, 68, 111, 99, 117, 109, 101, 110, 116, 83, 117, 109, 109, 97, 114, 121, 73, 110, 102, 111, 114, 109, 97, 116, 105, 111, 110>>
+N_Signature == <<5, 68, 105, 103, 105, 116, 97, 108, 83, 105, 103, 110, 97, 116, 117, 114, 101>>
+N_SigEx == <<5, 77, 115, 105, 68, 105, 103, 105, 116, 97, 108, 83, 105, 103, 110, 97, 116, 117, 114, 101, 69, 120>>
+N_StringPool == <<95, 83, 116, 114, 105, 110, 103, 80, 111, 111, 108>>
+StreamNames ==
+  { <<97>>, <<48, 48>>, <<14336>>, Packable(3), Packable(62), Packable(63), <<97, 32, 98>>, <<233>>, <<18431>>, <<18432>>, <<18495>>,
+    <<18496, 97>>, <<97, 18496>>, <<47, 233>>, <<97, 47, 98>>, <<92>>, <<58>>, <<33>>, <<>>, <<201, 97>>, <<67, 97, 102, 201>>, <<931>>,
+    N_Summary, N_DocSummary, N_Signature, N_SigEx, N_StringPool, T, <<128512>> }
+StreamNamesQ == { <<97>>, <<48, 48>>, <<14336>>, Packable(62), Packable(63), <<233>>, <<201, 97>>, <<47, 233>>, <<18496, 97>>, <<>>,
+                  N_Summary, N_Signature, T }
 Eq(c, v) == Bin("eq", Col(c), Lit(v))
 
 E(op, args) == [op |-> op, args |-> args]
@@ -95,6 +109,18 @@ Alphabet ==
          \cup {E("WriteStream", [name |-> <<115>>, data |-> d]) : d \in {"b01", "b0202"}}
          \cup {E("RemoveStream", [name |-> <<115>>])}
          \cup Closes
+    [] Cfg = "streams" ->       \* C11 (quick): adversarial names, interleaved with a table operation, reopen, signature
+         {E("WriteStream", [name |-> n, data |-> d]) : n \in StreamNamesQ, d \in {"b01", "g4096_7"}}
+         \cup {E("RemoveStream", [name |-> n]) : n \in StreamNamesQ}
+         \cup {E("ReadStream", [name |-> n]) : n \in StreamNamesQ}
+         \cup {Cre(T, TabT), E("RemoveSignature", [x |-> 0]), E("AddSignature", [x |-> 0]),
+               E("Flush", [x |-> 0]), E("IntoInner", [x |-> 0]), E("Reopen", [x |-> 0])}
+    [] Cfg = "streamsfull" ->   \* C11 (thorough): all names and sizes
+         {E("WriteStream", [name |-> n, data |-> d]) : n \in StreamNames, d \in {"b", "b01", "g4096_7", "g8193_3"}}
+         \cup {E("RemoveStream", [name |-> n]) : n \in StreamNames}
+         \cup {E("ReadStream", [name |-> n]) : n \in StreamNames}
+         \cup {Cre(T, TabT), Ins(T, <<<<IntV(1), sa>>>>), E("RemoveSignature", [x |-> 0]), E("AddSignature", [x |-> 0]),
+               E("Flush", [x |-> 0]), E("IntoInner", [x |-> 0]), E("Reopen", [x |-> 0])}
     [] Cfg = "reject" ->        \* every kind of invalid call (C04) in every state of a small model
          {Cre(T, TabT), Drp(T), Ins(T, <<<<IntV(1), sa>>>>), Ins(T, <<<<IntV(7), sT>>>>), Del(T, True),
           Upd(T, <<<<V, sb>>, <<K, IntV(5)>>>>, True),     \* refused when it would make two keys equal, after touching strings
@@ -128,6 +154,9 @@ Do(e) ==
     [] e.op = "SetSummary"  -> SetSummary(e.args.field, e.args.value)
     [] e.op = "WriteStream" -> WriteStream(e.args.name, e.args.data)
     [] e.op = "RemoveStream" -> RemoveStream(e.args.name)
+    [] e.op = "ReadStream"  -> ReadStream(e.args.name)
+    [] e.op = "RemoveSignature" -> RemoveSignature
+    [] e.op = "AddSignature" -> AddSignature
     [] e.op = "Flush"       -> Flush
     [] e.op = "IntoInner"   -> IntoInner
     [] e.op = "DropPkg"     -> DropPkg
@@ -151,13 +180,13 @@ MCInit ==
 MCNext == \E e \in Alphabet : Do(e)
 MCSpec == MCInit /\ [][MCNext]_vars
 
-PoolBound == Len(pool) <= 40
+PoolBound == Len(pool) <= 40 /\ Cardinality(DOMAIN ustreams \ {SIG}) <= 2
 
 -----------------------------------------------------------------------------
 \* JSON shape of the abstract state (tables and streams as lists; the harness sorts by name)
 AbsJ(a) ==
   [ptype |-> a.ptype, cp |-> a.cp, summary |-> a.summary,
-   streams |-> SetToSeq({[name |-> n, data |-> a.streams[n]] : n \in DOMAIN a.streams}),
+   streams |-> SetToSeq({[name |-> n, data |-> a.streams[n]] : n \in DOMAIN a.streams}), sig |-> a.sig,
    tables  |-> SetToSeq({[name |-> t, cols |-> a.tables[t].cols, rows |-> a.tables[t].rows] : t \in DOMAIN a.tables})]
 
 \* Only the tables that the step changed travel in full; the others are listed by name and the
@@ -165,7 +194,7 @@ AbsJ(a) ==
 DiffJ(a, a1) ==
   LET changed == {t \in DOMAIN a1.tables : t \notin DOMAIN a.tables \/ a1.tables[t] # a.tables[t]}
   IN [ptype |-> a1.ptype, cp |-> a1.cp, summary |-> a1.summary,
-      streams |-> SetToSeq({[name |-> n, data |-> a1.streams[n]] : n \in DOMAIN a1.streams}),
+      streams |-> SetToSeq({[name |-> n, data |-> a1.streams[n]] : n \in DOMAIN a1.streams}), sig |-> a1.sig,
       tables  |-> SetToSeq({[name |-> t, cols |-> a1.tables[t].cols, rows |-> a1.tables[t].rows] : t \in changed}),
       same    |-> SetToSeq(DOMAIN a1.tables \ changed)]
 Present(ts) == SetToSeq(DOMAIN ts)
